@@ -17,6 +17,12 @@ Tie = translation validation of the six shape introspectors + end-to-end twins:
   * twins-load      : Retort.load on every kind's class vs `loadModel (shapeOf k m)` (+ object view)
   * twins-dump      : Retort.dump vs `dumpModel`; twins-aslist : as_list dump vs `dumpAsList`
   * link            : get_converter between every ordered pair of kinds vs `link`
+  * convert-sub     : conversion twins — a source model that LACKS some destination fields (the optional ones,
+                      in every position; sometimes a required one) and/or has source-only fields, converted into
+                      the destination declared in every kind under allow_unlinked_optional(names) / (P.ANY) /
+                      a partial allowance / the default forbidding policy, vs `convertModel`
+                      (`fetchLinking` + `planCall` = _make_constructor_call + `bindCall` = Python's call
+                      binding over the kind's InputShape.params) followed by `objectOf`
 Direct oracle (real library only, Python, no Lean): all kinds in which the logical model can be
 declared give the same load outcome / dump / error / converter result, up to the listed per-kind
 limitations; limitations that are adaptix's own choice must be *documented* (DOC_ANCHORS are looked up
@@ -52,11 +58,20 @@ CLAIM = {
         "load the same input to the same constructor arguments (field-wise related ones when nested models are loaded "
         "by kind-specific loaders: kinds_agree_load_nested), report the same missing/bad keys, dump field-wise equal "
         "objects to equal dicts under every name mapping and omit_default setting, and a converter between any two of "
-        "the six kinds links every field to its namesake (kinds_agree_*, cross_kind_convert_copies_all); the deviations "
+        "the six kinds links every field to its namesake (kinds_agree_*, cross_kind_convert_copies_all). The one later "
+        "stage that reads the kind-specific parameter list is modelled too: _make_constructor_call (planCall: positional "
+        "until the first parameter left out, keywords afterwards) composed with Python's call binding (bindCall); for "
+        "every parameter list with distinct names and no positional-only parameter the planned call binds exactly the "
+        "linked parameters to their own values (planned_call_binds_fieldwise), every kind's parameter list is of that form "
+        "(every_kind_params_wellformed), hence for any source shape, any allow_unlinked_optional policy and unlinked "
+        "optional fields in any position the destination constructor of each of the six kinds receives exactly the "
+        "field-wise specification (convert_fieldwise, convert_fieldwise_lookup), any two kinds receive the same argument "
+        "for every field and refuse together (kinds_agree_convert, _objects, _refusal). The deviations "
         "of TypedDict (no defaults, sorted as_list order) and SQLAlchemy are stated as theorems with proved witnesses "
         "(full_strength_fails_*). That the real attrs/pydantic/SQLAlchemy/stdlib classes are described by the model is "
         "established by differential testing only: real get_*_shape vs shapeOf on generated canonical and rich "
-        "declarations, and real Retort.load/dump/get_converter on twins of all six kinds vs the model."
+        "declarations, and real Retort.load/dump/get_converter on twins of all six kinds vs the model (converters also "
+        "from sources that lack / add fields, vs convertModel + objectOf)."
     ),
     "note": (
         "Trusted: Lean 4.33 kernel; axioms audited each run. The theorems are about the hand-written Lean model of the "
@@ -73,11 +88,19 @@ LEAN_TARGETS = ["AdaptixProofs.Props.C17", "drv_c17"]
 RULE = ("logical models: 1-5 fields over {int,str,bool,float,Optional[int],list[int],dict[str,int],nested model}, "
         "defaults none/scalar (0,'',None,False,...)/factories (list,dict,plain functions), kw-only flags, private and "
         "trailing-underscore names; every model is declared in all six kinds; a case is non-trivial when the class "
-        "exists in the kind and the shape has >= 2 fields or a default / the load reaches the per-field stage")
+        "exists in the kind and the shape has >= 2 fields or a default / the load reaches the per-field stage; "
+        "conversion twins: per destination model 1-2 source models = destination minus a random subset of its optional "
+        "fields (sometimes a required one) plus 0-2 source-only fields, policy allow-by-name / allow P.ANY / partial / "
+        "default forbid, every destination kind x 2 source kinds; three fixed destinations with every subset of "
+        "their optional fields dropped; non-trivial when source and destination field sets differ")
 ASSUMPTIONS = [
     "field loaders/dumpers and the name layout are the same function of (type, field id) for every kind — they never "
     "see the kind (C02/C03); the correspondence plugs the real leaf outcomes into the model",
     "pydantic's own validation in the constructor is the identity on exactly-typed values of the generated pool",
+    "converters: the coercer of a field whose source and destination types are equal is as-is and the coercer of a "
+    "nested model is built by the same construction (parameter `co` of convertModel; C13/C14); the source object holds "
+    "every field of its shape (TypedDict sources with an absent NotRequired key are not generated: the accessor raises "
+    "KeyError for every destination kind alike)",
     "per-kind limitations that make a logical model undeclarable (NamedTuple: no factories/underscore names; "
     "pydantic: underscore names are private attributes; SQLAlchemy: nested model needs FK + relationship; TypedDict: "
     "no defaults -> NotRequired) are properties of Python / the third-party library, observed on the real class machinery",
@@ -1477,6 +1500,262 @@ def twin_convert_cases(ctx: Ctx, real: RealSide, tw, requests, meta, max_pairs=N
             meta.append(("link", case, sorted([n, n if ok else None] for n, ok in copied.items())))
 
 
+# ---- conversion twins: the source lacks / adds fields ---------------------------------------------
+#
+# Property text: "Converters between any two kinds of the same logical model copy every field."  The
+# destination kinds differ in exactly one thing the converter reads: the parameter list (positional-or-keyword
+# for dataclass / NamedTuple / attrs — attrs under the init alias —, keyword-only for TypedDict / pydantic /
+# SQLAlchemy).  It only matters when the generated constructor call leaves a parameter out, i.e. when the
+# source lacks an optional destination field.  So the source here is a *sub-/super-model* of the destination.
+
+SOURCE_ONLY_NAMES = ["s_only", "src_extra", "zz9"]
+POSKW_KINDS = ("dataclass", "namedtuple", "attrs")
+
+
+def source_model(lm, dropped, extras):
+    """the destination's logical model without `dropped`, plus source-only fields (required ones first,
+    defaulted ones last, so the positional kinds still accept the declaration)"""
+    fields = [dict(f) for f in lm["fields"] if f["name"] not in dropped]
+    front = [e for e in extras if fdefault(e)["k"] == "none"]
+    back = [e for e in extras if fdefault(e)["k"] != "none"]
+    src = {"fields": front + fields + back}
+    if any(f["ty"]["t"] == "model" for f in src["fields"]) and lm.get("nested"):
+        src["nested"] = lm["nested"]
+    return src
+
+
+def gen_source_variant(rng, lm):
+    """(source model, policy) for the destination model `lm`"""
+    optional = [f["name"] for f in lm["fields"] if fdefault(f)["k"] != "none"]
+    required = [f["name"] for f in lm["fields"] if fdefault(f)["k"] == "none"]
+    dropped = []
+    r = rng.random()
+    if optional and r < 0.72:
+        dropped = [n for n in optional if rng.random() < 0.5] or [rng.choice(optional)]
+    elif required and r < 0.82:
+        dropped = [rng.choice(required)] + [n for n in optional if rng.random() < 0.3]
+    extras = []
+    if rng.random() < 0.3:
+        taken = {f["name"] for f in lm["fields"]}
+        for nm in rng.sample(SOURCE_ONLY_NAMES, rng.randint(1, 2)):
+            if nm in taken:
+                continue
+            ty = rng.choice([T_INT, T_STR, T_OPT_INT, T_LIST_INT])
+            e = {"name": nm, "ty": ty}
+            if rng.random() < 0.5:
+                e["default"] = gen_default(rng, ty)
+            extras.append(e)
+    dropped_optional = [n for n in dropped if n in optional]
+    r = rng.random()
+    if not dropped:
+        allow = rng.choice([None, "any"])
+    elif r < 0.5:
+        allow = list(dropped_optional)
+    elif r < 0.8:
+        allow = "any"
+    elif r < 0.9 and len(dropped_optional) >= 2:
+        allow = rng.sample(dropped_optional, len(dropped_optional) - 1)      # one unlinked field stays forbidden
+    else:
+        allow = None                                                         # the retort's default: forbid
+    return source_model(lm, dropped, extras), {"allow": allow}
+
+
+def all_position_variants(lm):
+    """every subset of the optional destination fields missing from the source (all positions), allowed by name"""
+    optional = [f["name"] for f in lm["fields"] if fdefault(f)["k"] != "none"]
+    out = []
+    for mask in range(1, 2 ** len(optional)):
+        dropped = [n for i, n in enumerate(optional) if mask >> i & 1]
+        out.append((source_model(lm, dropped, []), {"allow": dropped if mask % 2 else "any"}))
+    return out
+
+
+def conversion_corner_models():
+    """deterministic destinations whose optional fields are dropped in *every* combination on every run"""
+    return [
+        {"fields": [{"name": "x", "ty": T_INT}, {"name": "p", "ty": T_STR, "default": D_value("dflt")},
+                    {"name": "q", "ty": T_OPT_INT, "default": D_value(None)}, {"name": "r", "ty": T_FLOAT, "default": D_value(1.5)}]},
+        {"fields": [{"name": "x", "ty": T_STR}, {"name": "tags", "ty": T_LIST_INT, "default": D_factory("fn_list")},
+                    {"name": "_p", "ty": T_STR, "default": D_value("x"), "kw_only": True},
+                    {"name": "from_", "ty": T_INT, "default": D_value(42)}]},
+        {"fields": [{"name": "m", "ty": T_INT, "default": D_value(1)}, {"name": "n", "ty": T_INT, "default": D_value(-5)},
+                    {"name": "k", "ty": T_BOOL, "kw_only": True}]},
+    ]
+
+
+def policy_recipe(policy):
+    from adaptix import P
+    from adaptix.conversion import allow_unlinked_optional
+    allow = policy["allow"]
+    if allow is None:
+        return []
+    if allow == "any":
+        return [allow_unlinked_optional(P.ANY)]
+    return [allow_unlinked_optional(*allow)] if allow else []
+
+
+def policy_allows(policy, name):
+    allow = policy["allow"]
+    return allow == "any" or (isinstance(allow, list) and name in allow)
+
+
+def default_view(f, kind, lm):
+    d = fdefault(f)
+    v = scalar_of_json(d["v"]) if d["k"] == "value" else FACTORIES[d["f"]]()
+    return jtext(view(f["ty"], v, kind, lm))
+
+
+def expected_convert(dst_kind, dst_lm, src_names, policy, src_views):
+    """The field-wise specification of a converter, per destination kind (Python only, no Lean):
+    a destination field the source has receives the source's value; one it lacks must be optional and allowed
+    (else: no converter) and is then left to the kind's constructor — the declared default (dataclass /
+    NamedTuple / attrs / pydantic), an absent key (TypedDict), None until flush (SQLAlchemy).
+    Returns (expected outcome, limitation tags the expectation relies on)."""
+    tags = limitation_tags(dst_kind, dst_lm)
+    used = set()
+    refused = False
+    for f in dst_lm["fields"]:
+        n = f["name"]
+        if n in src_names:
+            continue
+        optional = fdefault(f)["k"] != "none"
+        if not optional and tags.get(n) in ("sa-nullable-optional", "sa-autoinc-optional") and policy_allows(policy, n):
+            optional = True
+            used.add(tags[n])
+        if not optional or not policy_allows(policy, n):
+            refused = True
+    if refused:
+        return {"r": "no_converter"}, set()
+    objects = []
+    for sv in src_views:
+        row = []
+        for f in dst_lm["fields"]:
+            n = f["name"]
+            if n in src_names:
+                row.append([n, sv[n]])
+            elif dst_kind == "typeddict":
+                row.append([n, None])                  # td-no-default: the key is simply absent
+            elif dst_kind == "sqlalchemy":
+                row.append([n, "null"])                # sa-deferred-default / optional column: None until flush
+            else:
+                row.append([n, default_view(f, dst_kind, dst_lm)])
+        objects.append(row)
+    return {"r": "ok", "objects": objects}, used
+
+
+def real_convert(real: RealSide, src_cls, dst_kind, dst_cls, dst_lm, policy, objs):
+    from adaptix.conversion import get_converter
+    try:
+        conv = get_converter(src_cls, dst_cls, recipe=policy_recipe(policy))
+    except real.ProviderNotFoundError:
+        return {"r": "no_converter"}
+    except Exception as e:
+        return {"r": "exception", "cls": type(e).__name__, "msg": "get_converter: " + str(e)[:160]}
+    outs = []
+    for obj in objs:
+        try:
+            res = conv(obj)
+        except Exception as e:
+            return {"r": "call_error", "cls": type(e).__name__, "msg": str(e)[:160]}
+        outs.append(object_view(dst_kind, dst_lm, res))
+    return {"r": "ok", "objects": outs}
+
+
+def gap_class(dst_lm, src_names):
+    """where the unlinked destination fields sit relative to the linked ones (declaration order)"""
+    linked = [f["name"] in src_names for f in dst_lm["fields"]]
+    if all(linked):
+        return "all-linked"
+    first_gap = linked.index(False)
+    return "gap-before-linked" if any(linked[first_gap + 1:]) else "gap-at-tail"
+
+
+def compare_convert(ctx: Ctx, src_kind, dst_kind, out, expected, used, case, agreeing=None):
+    sig = f"convert-sub:{src_kind}->{dst_kind}"
+    if out["r"] in ("exception", "call_error"):
+        ctx.fail(sig + ":raises", f"converter {src_kind}->{dst_kind} into a destination with fields the source lacks: "
+                 f"{out['r']} {out['cls']}: {out['msg']}", case)
+        return
+    if out["r"] != expected["r"]:
+        ctx.fail(sig + ":refusal", f"get_converter({src_kind} source, {dst_kind} destination): real {out['r']}, the field-wise "
+                 f"specification (unlinked fields must be optional and allowed) gives {expected['r']}", case)
+        return
+    if out["r"] == "ok":
+        for run, (got, exp) in enumerate(zip(out["objects"], expected["objects"])):
+            for (n, gv), (_, ev) in zip(got, exp):
+                if gv != ev:
+                    ctx.fail(sig + ":field-value",
+                             f"converter {src_kind}->{dst_kind}: destination field {n!r} holds {gv}, the field-wise specification "
+                             f"(the source's value for a field the source has, else what the kind's constructor does with an "
+                             f"argument that is not passed) gives {ev}; whole object {got}"
+                             + (f"; destination kinds that follow the specification on this case: {agreeing}" if agreeing else ""),
+                             dict(case, run=run))
+                    return
+    license_tags(ctx, used, case, f"converter {src_kind}->{dst_kind} exists although the source lacks a logically required field")
+
+
+def convert_sub_cases(ctx: Ctx, real: RealSide, tw, variants, n_src_kinds, requests, meta, only_pair=None):
+    lm = tw.lm
+    for src_lm, policy in variants:
+        stw = Twin(src_lm)
+        if not stw.kinds() or not tw.kinds():
+            continue
+        src_names = {f["name"] for f in src_lm["fields"]}
+        gap = gap_class(lm, src_names)
+        runs = [{f["name"]: gen_value(ctx.rng, f["ty"], src_lm) for f in src_lm["fields"]} for _ in range(2)]
+        if only_pair is not None:
+            src_kinds = [only_pair[0]] if only_pair[0] in stw.cls else []
+        else:
+            src_kinds = ctx.rng.sample(stw.kinds(), min(n_src_kinds, len(stw.kinds())))
+        ptag = "forbid" if policy["allow"] is None else ("any" if policy["allow"] == "any" else "named")
+        for src_kind in src_kinds:
+            objs = [construct(src_kind, stw.cls[src_kind], src_lm,
+                              {f["name"]: to_py_value(f["ty"], values[f["name"]], src_kind, stw) for f in src_lm["fields"]})
+                    for values in runs]
+            src_views = [dict(object_view(src_kind, src_lm, o)) for o in objs]
+            dst_kinds = [k for k in tw.kinds() if only_pair is None or k == only_pair[1]]
+            results = {}
+            for dst_kind in dst_kinds:
+                out = real_convert(real, stw.cls[src_kind], dst_kind, tw.cls[dst_kind], lm, policy, objs)
+                expected, used = expected_convert(dst_kind, lm, src_names, policy, src_views)
+                results[dst_kind] = (out, expected, used)
+            agreeing = [k for k, (out, expected, _) in results.items() if out == expected]
+            for dst_kind, (out, expected, used) in results.items():
+                case = {"suite": "convert-sub", "model": lm, "src_model": src_lm, "policy": policy,
+                        "kinds": [src_kind, dst_kind], "values": runs}
+                region = gap + ("-poskw" if dst_kind in POSKW_KINDS else "-kwonly") + (
+                    "-converted" if out["r"] == "ok" else "-refused" if out["r"] == "no_converter" else "-raises")
+                ctx.note_case(case, nontrivial=gap != "all-linked" or len(src_lm["fields"]) != len(lm["fields"]),
+                              kind=f"convert-sub-{region}")
+                ctx.dist[f"convsub-policy-{ptag}-{out['r']}"] += 1
+                ctx.dist[f"convsub-dst-{dst_kind}-{out['r']}"] += 1
+                compare_convert(ctx, src_kind, dst_kind, out, expected, used, case, agreeing)
+                if requests is not None:
+                    for run, sv in enumerate(src_views):
+                        requests.append({"op": "convert_model", "src_kind": src_kind, "src_model": lean_model(src_lm),
+                                         "dst_kind": dst_kind, "dst_model": lean_model(lm), "allow": policy["allow"],
+                                         "object": [[n, sv[n]] for n in sv]})
+                        meta.append(("convert-sub", dict(case, run=run),
+                                     {"r": "ok", "object": out["objects"][run]} if out["r"] == "ok" else out))
+                ctx.sample({"suite": "convert-sub", "model": lm, "src_model": src_lm, "policy": policy,
+                            "kinds": [src_kind, dst_kind], "real": out}, every=211)
+
+
+def run_convert_sub(ctx: Ctx, real: RealSide, drv, twins, n_variants, n_src_kinds):
+    requests = [] if drv else None
+    meta = []
+    for lm in conversion_corner_models():
+        convert_sub_cases(ctx, real, Twin(lm), all_position_variants(lm), n_src_kinds, requests, meta)
+    for tw in twins:
+        if not tw.kinds():
+            continue
+        has_optional = any(fdefault(f)["k"] != "none" for f in tw.lm["fields"])
+        variants = [gen_source_variant(ctx.rng, tw.lm) for _ in range(n_variants if has_optional else 1)]
+        convert_sub_cases(ctx, real, tw, variants, n_src_kinds, requests, meta)
+    if drv:
+        compare_replies(ctx, meta, drv.batch(requests))
+
+
 def compare_replies(ctx: Ctx, meta, replies):
     counts = {}
     for (suite, case, real_out), rep in zip(meta, replies):
@@ -1503,6 +1782,11 @@ def compare_replies(ctx: Ctx, meta, replies):
                     agree = ok["items"] == [jtext(v) for v in real_out["data"]]
             elif suite == "link":
                 agree = ok.get("r") == "ok" and sorted(ok["links"]) == real_out
+            elif suite == "convert-sub":
+                if real_out["r"] == "ok":
+                    agree = ok.get("r") == "ok" and ok.get("object") == real_out["object"]
+                else:
+                    agree = ok.get("r") == real_out["r"]
         if not agree:
             c[1] += 1
             ctx.disagree(suite, case, real_out, rep)
@@ -1559,6 +1843,8 @@ def run(ctx: Ctx):
     suite_shapes_rich(ctx, drv, ctx.budget(150, 2500))
     run_twins(ctx, real, drv, twins, n_mappings=ctx.budget(2, 3), n_inputs=ctx.budget(5, 8), n_objects=2,
               max_pairs=ctx.budget(8, 30))
+    # ~4.5 ms per generated converter: quick ≈ 2 600 converters, thorough ≈ 10 000
+    run_convert_sub(ctx, real, drv, twins[:ctx.budget(len(twins), 600)], n_variants=2, n_src_kinds=2)
     ctx.extra["documented_limitations"] = {tag: documented(tag) for tag in DOC_ANCHORS}
     ctx.extra["exhaustive"] = False
 
@@ -1580,8 +1866,17 @@ def search(ctx: Ctx):
                          {"suite": "shape-canonical", "kind": kind, "model": tw.lm})
     run_twins(ctx, real, None, twins, 4, 10, 3, None)
     if not ctx.failures:
+        for d in ctx.disagreements[:100]:
+            c = d["case"]
+            if c.get("suite") == "convert-sub":
+                convert_sub_cases(ctx, real, Twin(c["model"]), [(c["src_model"], c["policy"])], 6, None, [])
+        if not ctx.failures:
+            run_convert_sub(ctx, real, None, twins, 4, 6)
+    if not ctx.failures:
         more = [Twin(gen_logical(ctx.rng)) for _ in range(600)]
         run_twins(ctx, real, None, more, 2, 6, 2, 10)
+        if not ctx.failures:
+            run_convert_sub(ctx, real, None, more, 2, 2)
     if not ctx.failures:
         # rich declarations: a shape the model does not predict is not a violation by itself; look for an
         # observable difference by loading/dumping a dataclass twin of the same field list
@@ -1615,6 +1910,19 @@ def replay(ctx: Ctx, case) -> bool:
                 ctx.fail("introspector-crash", str(rs), case)
         except Undeclarable:
             pass
+    elif suite == "convert-sub":
+        tw = Twin(case["model"])
+        stw = Twin(case["src_model"])
+        src_kind, dst_kind = case["kinds"]
+        if src_kind in stw.cls and dst_kind in tw.cls:
+            src_lm, lm = case["src_model"], case["model"]
+            objs = [construct(src_kind, stw.cls[src_kind], src_lm,
+                              {f["name"]: to_py_value(f["ty"], values[f["name"]], src_kind, stw) for f in src_lm["fields"]})
+                    for values in case["values"]]
+            src_views = [dict(object_view(src_kind, src_lm, o)) for o in objs]
+            out = real_convert(real, stw.cls[src_kind], dst_kind, tw.cls[dst_kind], lm, case["policy"], objs)
+            expected, used = expected_convert(dst_kind, lm, {f["name"] for f in src_lm["fields"]}, case["policy"], src_views)
+            compare_convert(ctx, src_kind, dst_kind, out, expected, used, case)
     elif suite in ("twins-load", "twins-dump", "twins-aslist", "link"):
         tw = Twin(case["model"])
         lm = tw.lm
